@@ -368,6 +368,35 @@ def rule_ctor_label(ctx, py, R="C05.CTOR"):
     ctx.floor(R, 3)
 
 
+def rule_reflected(ctx, py):
+    """C05.REFLECTED -- `number op quantity` is answered by the quantity's reflected operator only when the number's own operator
+    gives up (returns NotImplemented).  A numpy scalar (what arr.mean(), arr[i], np.prod(..) return) does not give up on an
+    operand it can read as a sequence: an operand class that defines __len__ together with __getitem__ (or __iter__) is converted
+    with np.asarray and the result is an object ndarray, not a quantity -- unless the class opts out with `__array_ufunc__ =
+    None` (or a higher __array_priority__).  The quantity classes define reflected operators and must stay out of that route."""
+    R = "C05.REFLECTED"
+    n = 0
+    for cn in ("units.UnitValue", "units.UnitArray"):
+        c = py.cls(cn)
+        names = {x.name for x in c.body if isinstance(x, ast.FunctionDef)}
+        attrs = {t.id for x in c.body if isinstance(x, ast.Assign) for t in x.targets if isinstance(t, ast.Name)}
+        refl = sorted(x for x in names if x.startswith("__r") and x.endswith("__") and x not in ("__repr__", "__reversed__",
+                                                                                                  "__round__"))
+        ctx.need(refl, R, "%s: no reflected operator found" % cn)
+        seq = sorted(names & {"__getitem__", "__iter__", "__array__"})
+        if seq == ["__getitem__"] and "__len__" not in names:
+            seq = []               # without a length numpy does not read the object as a sequence
+        optout = "__array_ufunc__" in attrs or "__array_priority__" in attrs
+        n += 1
+        ctx.check(not seq or optout, R, c, cn, "%d reflected operators; sequence protocol: %s" % (len(refl), seq or "none"),
+                  "not readable as a sequence by numpy (or opted out with __array_ufunc__ = None)",
+                  "%s defines %s: a numpy scalar on the left of + - * / %% no longer hands over to the reflected operator but "
+                  "converts the operand with np.asarray; `np.float64(2) * a` is an object ndarray without units while `a * "
+                  "np.float64(2)` is a quantity (result depends on operand order, dimension checks are bypassed)"
+                  % (cn.split(".")[-1], ", ".join(seq)))
+    ctx.floor(R, 2)
+
+
 def run(ctx):
     # package-wide disciplines first: they need no anchor, and what they find stands whatever the rules below can analyse
     from .. import lints
@@ -379,6 +408,7 @@ def run(ctx):
     rule_units_ops(ctx, py)
     rule_cmp_exact(ctx, py)
     rule_ctor_label(ctx, py)
+    rule_reflected(ctx, py)
     # shared clauses: conversions used by the operators (C06: factor structure, dimension guard, argument order)
     from ..core import borrow
     from . import c06
